@@ -749,5 +749,70 @@ func factsC11(r *Repo) []Fact {
 			}
 		}
 	}
+	// ---- nodePathFresh: setNodeKey builds the child's path in a backing array of its own.
+	// `append(<x>.path, key)` (or append on an identifier / slice expression that still denotes
+	// the parent's slice: `p := path.path`, `path.path[:n]`) writes into the parent's array when it
+	// has spare capacity, which every sibling node then shares; a three-index slice expression
+	// (`path.path[:n:n]`) or a slice made by `make` / a composite literal is an array of its own. ----
+	if fd, file := cp.Func("", "setNodeKey"); fd == nil {
+		out = append(out, unknownFact("nodePathFresh", "Bool", "false", "compose/checkpoint.go", "func setNodeKey not found"))
+	} else {
+		shared := map[string]bool{} // identifiers that denote the parent's slice
+		var isShared func(e ast.Expr) bool
+		isShared = func(e ast.Expr) bool {
+			switch x := e.(type) {
+			case *ast.ParenExpr:
+				return isShared(x.X)
+			case *ast.SelectorExpr:
+				return x.Sel.Name == "path"
+			case *ast.SliceExpr:
+				return !x.Slice3 && isShared(x.X)
+			case *ast.Ident:
+				return shared[x.Name]
+			case *ast.CallExpr:
+				// GetPath() returns the field itself
+				if sel, ok := x.Fun.(*ast.SelectorExpr); ok && sel.Sel.Name == "GetPath" {
+					return true
+				}
+			}
+			return false
+		}
+		appends, aliased, builds := 0, 0, 0
+		ast.Inspect(fd.Body, func(x ast.Node) bool {
+			switch n := x.(type) {
+			case *ast.AssignStmt:
+				if len(n.Lhs) == len(n.Rhs) {
+					for i := range n.Lhs {
+						if id, ok := n.Lhs[i].(*ast.Ident); ok {
+							// `p = append(p, …)` keeps p's status; anything else re-decides it
+							if c, isCall := n.Rhs[i].(*ast.CallExpr); isCall && c11IsCallTo(c, "append") && len(c.Args) > 0 {
+								shared[id.Name] = isShared(c.Args[0])
+							} else {
+								shared[id.Name] = isShared(n.Rhs[i])
+							}
+						}
+					}
+				}
+			case *ast.CallExpr:
+				if c11IsCallTo(n, "NewNodePath") {
+					builds++
+				}
+				if c11IsCallTo(n, "append") && len(n.Args) > 0 {
+					appends++
+					if isShared(n.Args[0]) {
+						aliased++
+					}
+				}
+			}
+			return true
+		})
+		where := "compose/" + file + ": setNodeKey: the child's node path is built in a slice of its own (make+copy / three-index slice), never by append on the parent's path slice — false = `append(path.path, key)`: sibling nodes share the parent's spare capacity and the later one overwrites the earlier one's path"
+		if builds == 0 {
+			out = append(out, unknownFact("nodePathFresh", "Bool", "false", "compose/"+file, "setNodeKey does not call NewNodePath"))
+		} else {
+			out = append(out, boolFact("nodePathFresh", aliased == 0, where))
+		}
+		_ = appends
+	}
 	return out
 }
